@@ -54,7 +54,9 @@ def stepOp (s : State) (w : List String) : Option State :=
     | _, _ => none
   | ["refetch"] => some (step s .refetch)
   | ["mset", v] => v.toNat?.map fun v => step s (.manualSet v)
-  | ["complete", f] => f.toNat?.map fun f => step s (.complete f)
+  | ["complete", f] =>
+    if f == "last" then some (step s (.complete (s.nf - 1)))
+    else f.toNat?.map fun f => step s (.complete f)
   | ["attach"] => some (step s .attach)
   | ["attach", k] => if k == "v" || k == "r" || k == "b" then some (step s .attach) else none
   | ["poll", j] => j.toNat?.map fun j => step s (.poll j)
